@@ -188,7 +188,13 @@ impl<'a> World<'a> {
                     }
                     let mut verifies = true;
                     if mask & 32 != 0 {
-                        ops.push(data::register_op(&base, 100 + i as u32, &stranger));
+                        // an op the register does not admit: signed by a stranger under its own name, or naming the
+                        // owner as its source while carrying the stranger's signature
+                        if i % 2 == 0 {
+                            ops.push(data::register_op(&base, 100 + i as u32, &stranger));
+                        } else {
+                            ops.push(data::forged_register_op(&base, 100 + i as u32, &owner, &stranger));
+                        }
                         verifies = false;
                     }
                     let reg = data::register_with_ops(&base, &ops);
